@@ -549,7 +549,20 @@ class Diff(Oracle):
                         for ch in getattr(n, "children", []):
                             if ch.schema.name in (sc.keys or []) and "'" in str(ch.value) and '"' in str(ch.value):
                                 bq = True
-            self.info[L[-1]] = (uo, di, ue, bq, dupinst_names(m) if di else set())
+            sl = False        # a keyed state list with other children than its keys (its moved instances are duplicated whole)
+            ud = set()        # names of user-ordered leaf-lists that have default values
+            for sc in m.all_nodes():
+                if sc.kind == "leaf-list" and (sc.userord or not sc.config) and "" in (sc.defaults or ()):
+                    ue.add(sc.name)       # the empty value as an IMPLICIT default instance
+                if sc.kind == "leaf-list" and (sc.userord or not sc.config) and sc.defaults:
+                    ud.add(sc.name)
+                if sc.kind == "list" and not sc.config and sc.keys and len(sc.children) > len(sc.keys):
+                    sl = True
+            # a TOP-LEVEL user-ordered list with keys and other children: the diff node of a moved instance with a change
+            # inside can be the first node of the diff when it is relinked
+            tm = any(sc.kind == "list" and (sc.userord or not sc.config) and sc.keys and len(sc.children) > len(sc.keys)
+                     for sc in m.nodes)
+            self.info[L[-1]] = (uo, di, ue, bq, dupinst_names(m) if di else set(), sl, ud, tm)
         return L
 
     def judge(self, line, out):
@@ -558,15 +571,15 @@ class Diff(Oracle):
         r = results(out)
         if r[1] != "0" or rc(r[2]) != 0 or rc(r[3]) != 0 or rc(r[4]) != 0:
             return None
-        uo, di, ue, bq, dn = self.info.get(line, (False, False, set(), False, set()))
+        uo, di, ue, bq, dn, sl, ud, tm = self.info.get(line, (False, False, set(), False, set(), False, set(), False))
         a0, b0 = r[5], r[6]
-        fwd = self._judge_forward(r, a0, b0, uo, di, ue, bq, dn)
+        fwd = self._judge_forward(r, a0, b0, uo, di, ue, bq, dn, sl, ud, tm)
         if fwd:
             # a failure of the forward laws is a C06 matter: the reverse-only oracles (C13) cannot judge such a case
             return fwd if "forward" in self.parts else None
-        return self._judge_reverse(r, uo, di)
+        return self._judge_reverse(r, uo, di, ue, sl)
 
-    def _judge_forward(self, r, a0, b0, uo, di, ue=(), bq=False, dn=()):
+    def _judge_forward(self, r, a0, b0, uo, di, ue=(), bq=False, dn=(), sl=False, ud=(), tm=False):
         k = 7
         for opts in (DIFF_DEFAULTS, 0):
             what = "diff options=%d" % opts
@@ -577,12 +590,18 @@ class Diff(Oracle):
                 return (None, "diff(A,A) is not empty (%s)" % what)
             if not r[k + 4].startswith("0"):
                 t = None
-                if di and r[k + 4].startswith("3~failed-to-find-node-instance-in-data"):
+                if di and (r[k + 4].startswith("3~failed-to-find-node-instance-in-data") or r[k + 4] == "3"):
+                    # ("3" without a message: the position addresses the moved instance itself, lyd_insert_after(node, node))
                     t = "dupinst-position"
                 elif di and uo and r[k + 4].startswith("6~node-without-an-operation"):
                     t = "uord-move-nested-dupinst"
+                elif sl and uo and (r[k + 4].startswith("6~node-without-an-operation") or
+                                    r[k + 4].startswith("3~operation-is-invalid-for-node-without-children")):
+                    t = "uord-move-state-subtree"
                 elif ue and r[k + 4].startswith("3~failed-to-find"):
                     t = "uord-empty-anchor"
+                elif tm and uo and opts and r[k + 4].startswith("3~"):
+                    t = "uord-diff-first-moved"       # operations linked before the returned diff node are not applied
                 return (t, "apply(diff(A,B),A) failed: %s (%s)" % (r[k + 4], what))
             if "!" in r[k + 4]:
                 return ("diff-apply-first-sibling" if uo else None, "lyd_diff_apply_all left *data not at the first sibling")
@@ -598,7 +617,8 @@ class Diff(Oracle):
                     sa, sb = r[k + 7].split(";"), r[k + 8].split(";")
                     extra = [x for x in sa if strip_flags(x) not in {strip_flags(y) for y in sb}]
                     missing = [x for x in sb if strip_flags(x) not in {strip_flags(y) for y in sa}]
-                    if extra and not missing and all(x.split(":")[4:5] and "d" in x.split(":")[4] for x in extra):
+                    # (the surviving node can keep its case selected: then the defaults of the right case are missing)
+                    if extra and all(x.split(":")[4:5] and "d" in x.split(":")[4] for x in extra + missing):
                         return ("dflt-orphan-after-delete", "default nodes whose enabling explicit data was deleted survive "
                                 "validation: " + ";".join(extra)[:200])
                 if di and r[k + 7].replace(":ds", ":s") == r[k + 8].replace(":ds", ":s"):
@@ -610,6 +630,12 @@ class Diff(Oracle):
                 if dn and confined_to(r[k + 7], r[k + 8], dn):
                     return ("dupinst-position", "instances of key-less lists / state leaf-lists (matched by position) end up "
                             "different after apply")
+                if (not opts) and ud and confined_to(r[k + 7], r[k + 8], ud):
+                    return ("uord-dflt-anchor-nodefaults", "explicit instances of a user-ordered leaf-list with defaults, created "
+                            "next to its implicit default instances, end up in another order: " + ",".join(sorted(ud)))
+                if tm and uo and set(r[k + 7].split(";")) <= set(a0.split(";")) | set(b0.split(";")):
+                    return ("uord-diff-first-moved", "only a part of the operations was applied (every node of the result is a "
+                            "node of A or of B): the returned diff starts behind its first sibling")
                 return (None, "apply(diff(A,B),A) != B (%s)" % what)
             k += 9
         if r[25] != a0 or r[26] != b0:
@@ -620,12 +646,19 @@ class Diff(Oracle):
                 return (None, "printed/parsed diff applied after freeing A,B does not give B: rt=%s apply=%s cmp=%s" % (r[45], r[50], r[51]))
         return None
 
-    def _judge_reverse(self, r, uo, di):
+    def _judge_reverse(self, r, uo, di, ue=(), sl=False):
         if "reverse" not in self.parts:
             return None
         # reverse
         if r[28] != "0":
-            return ("dupinst-reverse" if di else None, "lyd_diff_reverse_all failed: " + r[28])
+            t = None
+            if di:
+                t = "dupinst-reverse"
+            elif sl and uo and r[28].startswith("6~internal-error"):
+                t = "uord-move-state-subtree-reverse"
+            elif ue and rc(r[28]) == 11:
+                t = "uord-empty-anchor-reverse"
+            return (t, "lyd_diff_reverse_all failed: " + r[28])
         if not r[30].startswith("0") or "!" in r[30] or r[31] != "0":
             tag = "uord-reverse" if uo else ("dupinst-reverse" if di else None)
             return (tag, "apply(reverse(diff(A,B)),B) != A: apply=%s cmp=%s" % (r[30], r[31]))
